@@ -14,9 +14,11 @@ def holders (reports : List (AL St)) (h : Hash) : List Nat :=
   reports.zipIdx.filterMap fun (st, i) => if st.has h then some i else none
 
 /-- `healthy target that fits into a shard`: good health (as the coordinator sees it: a shard's
-    report, else the explorer) and not too big -/
+    report, else the explorer), not too big, and accepted by the coordinator's own placement rule
+    on a shard that holds nothing (a target exactly as large as a limit is not) -/
 def eligible (o : Opt) (glob : Hash → St) (h : Hash) : Bool :=
-  !Gen.assignSkip (glob h) && !Gen.tooBig o (glob h)
+  !Gen.assignSkip (glob h) && !Gen.tooBig o (glob h) &&
+  Gen.fit o {} ⟨Gen.spaceOfHead (glob h), Gen.spaceOfProc (glob h)⟩
 
 /-- the converged state of C03, on the reports of the running shards -/
 def converged (o : Opt) (active : List Hash) (explore : AL St) (reports : List (AL St)) : Bool :=
